@@ -1246,6 +1246,12 @@ def c11(tier):
         pool = []
         for a in acs:
             pool += other_format_frames(a, rng)
+            # Comm-B replies that are a valid BDS 5,0 and whose bits also look like a BDS 6,0 (track >= 180 deg sets the bit that is
+            # the IAS status of 6,0), and genuine 6,0 replies: one reply is one register
+            for _ in range(3):
+                gs_ = rng.randint(60, 240)
+                pool.append(long_(rng.choice([20, 21]), enc_alt13(33000), mb50(rng.randint(-100, 100) or 1, rng.randrange(1024, 2048), gs_, rng.randint(-100, 100) or 1, max(1, min(180, gs_ + rng.randint(-30, 30)))), a))
+                pool.append(long_(20, enc_alt13(33000), mb60(rng.randrange(1, 2048), rng.randint(1, 500), rng.randint(1, 250), rng.randint(-187, 187) or 2, rng.randint(-187, 187) or -2), a))
         for _ in range(120):
             r = rng.random()
             if r < 0.1:
